@@ -287,6 +287,9 @@ impl<'a> R<'a> {
         if let Some(s) = chain::rw_chain(self, e) {
             return Some(s);
         }
+        if let Some(s) = chain::rw_map_transpose(self, e) {
+            return Some(s);
+        }
         if let Some(s) = chain::rw_option(self, e) {
             return Some(s);
         }
